@@ -88,6 +88,8 @@ var extra = []string{
 	// a multi-line string beginning with a tab in a generic position (listed finding: YAML marshalling fails)
 	"0:\n 0: \"\\t\\n\\n\"\n",
 	"steps:\n  - command: x\n    note: {deep: \"\\tindented\\nsecond line\"}\n",
+	// YAML timestamps in generic positions (the zone hour 24 is the listed finding)
+	"steps:\n  - command: x\n    when: 2001-01-01T00:00:00+24:00\n    since: 2002-08-15\n",
 	// anchor names redefined: the second collection is not the first
 	"steps:\n  - group: one\n    steps: &inner\n      - command: make\n  - group: two\n    steps: &inner\n      - command: make test\n      - wait\n      - command: make lint\n",
 	"steps:\n  - &s {command: a}\n  - &s {command: b, label: l}\n  - *s\n",
@@ -115,6 +117,8 @@ var (
 	knownWhat  string
 	knownHits2 int
 	knownWhat2 string
+	knownHits3 int
+	knownWhat3 string
 )
 
 func nonFinite(err error) bool {
@@ -333,6 +337,8 @@ func check(data []byte) (msg string, inScope bool) {
 			refSteps = g
 		case map[string]any:
 			refSteps = g["steps"]
+		case map[any]any: // yaml.v3's shape for a mapping with a non-string key
+			refSteps = g["steps"]
 		}
 		if msg := sameShape("steps", o.p.Steps, refSteps); msg != "" {
 			return msg, true
@@ -343,6 +349,14 @@ func check(data []byte) (msg string, inScope bool) {
 			if what, ok := knownOpen("C13", "non-finite-float"); ok {
 				knownHits++
 				knownWhat = what
+				return "", true
+			}
+		}
+		// a YAML timestamp kept as a time.Time whose zone hour is 24 (listed finding)
+		if strings.Contains(err.Error(), "Time.MarshalJSON") {
+			if what, ok := knownOpen("C13", "yaml-timestamp"); ok {
+				knownHits3++
+				knownWhat3 = what
 				return "", true
 			}
 		}
@@ -569,6 +583,9 @@ func TestC13(t *testing.T) {
 			}
 		}
 	}
+	if knownHits3 > 0 {
+		fmt.Printf("KNOWN-FINDING: property=C13 %s (%d inputs)\n", knownWhat3, knownHits3)
+	}
 	if knownHits2 > 0 {
 		fmt.Printf("KNOWN-FINDING: property=C13 %s (%d inputs)\n", knownWhat2, knownHits2)
 	}
@@ -602,10 +619,17 @@ func sameShape(where string, steps pipeline.Steps, ref any) string {
 	}
 	for i, st := range steps {
 		if g, ok := st.(*pipeline.GroupStep); ok {
-			if m, ok := list[i].(map[string]any); ok {
-				if msg := sameShape(fmt.Sprintf("%s[%d].steps", where, i), g.Steps, m["steps"]); msg != "" {
-					return msg
-				}
+			var sub any
+			switch m := list[i].(type) {
+			case map[string]any:
+				sub = m["steps"]
+			case map[any]any:
+				sub = m["steps"]
+			default:
+				continue
+			}
+			if msg := sameShape(fmt.Sprintf("%s[%d].steps", where, i), g.Steps, sub); msg != "" {
+				return msg
 			}
 		}
 	}
